@@ -1,3 +1,4 @@
+pub mod crash;
 pub mod repl;
 
 use crate::driver::PropSpec;
@@ -7,6 +8,7 @@ use crate::world::Trace;
 pub fn generate(engine: &str, prop: &str, seed: u64, thorough: bool) -> Trace {
     match engine {
         "repl" => repl::generate(seed, prop, thorough),
+        "crash" => crash::generate(seed, prop, thorough),
         _ => panic!("unknown engine {engine}"),
     }
 }
@@ -14,6 +16,7 @@ pub fn generate(engine: &str, prop: &str, seed: u64, thorough: bool) -> Trace {
 pub fn directed(engine: &str, prop: &str) -> Vec<Trace> {
     match engine {
         "repl" => repl::directed(prop),
+        "crash" => crash::directed(prop),
         _ => vec![],
     }
 }
@@ -21,6 +24,7 @@ pub fn directed(engine: &str, prop: &str) -> Vec<Trace> {
 pub fn execute(trace: &Trace, keep_log: bool) -> (RunReport, Vec<String>) {
     match trace.engine.as_str() {
         "repl" => repl::execute(trace, keep_log),
+        "crash" => crash::execute(trace, keep_log),
         e => panic!("unknown engine {e}"),
     }
 }
@@ -87,6 +91,30 @@ pub fn specs() -> Vec<PropSpec> {
             level: "exploration",
             rule: "as C03 with text updates weighted up; at each barrier every vocabulary token is searched on every node and compared with the node's own current text",
             assumptions: &["search terms are vocabulary tokens of 3+ lower-case letters/digits"],
+            real: repl_real,
+            stub: STUB_NET,
+        },
+        PropSpec {
+            id: "C13",
+            engine: "crash",
+            budget_s: (50, 600),
+            level: "exploration",
+            rule: "one node; seeded workloads of multi-row mutations, renames, deletions, reference deletions, room mutations, mutation streams, synchronised batches (pull from a prepared peer) and recomputation requests, issued one per transaction or grouped into ONE transaction through the batch gate; one injected fault per round at (site, k-th passage, kind) over 15 writer fault points x {statement error once, sticky, crash}; crash = writer thread dies inside the open transaction, node restarted on the same directory; distinct = distinct schedule signature among runs in which an operation completed",
+            assumptions: &[
+                "storage faults are injected at statement/transaction granularity inside the real write functions (the shipped ROLLBACK handling runs); torn pages / power loss are out of reach (no VFS seam)",
+                "a fault at 'before_commit' stands for the COMMIT statement itself failing with the transaction still open",
+                "in-process crash: the writer thread panics inside the transaction, every handle is dropped, the node restarts on the same files (what a killed process leaves with WAL)",
+            ],
+            real: repl_real,
+            stub: STUB_NET,
+        },
+        PropSpec {
+            id: "C18",
+            engine: "crash,repl",
+            budget_s: (40, 600),
+            level: "exploration",
+            rule: "one node, subscriber subscribed before the run and drained at every settle; the same workloads as C13 without faults, with transaction boundaries chosen through the batch gate (several changes, room mutations, streams and recomputation passes in one transaction); at the end every acknowledged change must be covered by a DataChanged (room, entity, day) / RoomModified event; distinct = distinct schedule signature",
+            assumptions: &["no requirement on which event or how many; ingestion events are checked in the repl engine"],
             real: repl_real,
             stub: STUB_NET,
         },
